@@ -84,6 +84,28 @@ func genProj(r *rng, spare int) *Proj {
 			p.Files[d+"/sub/a.txt"] = r.text()
 		}
 		srcPool = append(srcPool, d)
+		// files with unusual names: the valid ones can be named as sources, the ones that are not valid UTF-8 are only
+		// reachable through glob()
+		if r.chance(60) {
+			valid := []string{"sp ace.txt", "%2F.txt", "#h.txt", "q\"q.txt", "-d.txt", "é.txt", "at@x.txt", "dot..txt"}
+			for k := 0; k < 1+r.below(2); k++ {
+				f := pkgPath(pkg, valid[r.below(len(valid))])
+				p.Files[f] = r.text()
+				srcPool = append(srcPool, f)
+			}
+			if r.chance(60) {
+				invalid := []string{"caf" + rawByte(0xe9) + ".txt", rawByte(0xff) + ".txt", "c" + rawByte(0x80) + ".txt"}
+				p.Files[pkgPath(pkg, invalid[r.below(len(invalid))])] = r.text()
+			}
+		}
+		if pkg == "" && r.chance(40) {
+			// a source directory with an unusual name, holding entries with unusual names
+			ud := "d é%#"
+			p.Dirs = append(p.Dirs, ud)
+			p.Files[ud+"/"+namePool[8+r.below(len(namePool)-8)]] = r.text()
+			p.Files[ud+"/a.txt"] = r.text()
+			srcPool = append(srcPool, ud)
+		}
 	}
 	nt := 3 + r.below(10) + spare
 	hasDefault := map[string]bool{}
@@ -137,8 +159,12 @@ func genProj(r *rng, spare int) *Proj {
 		if r.chance(20) {
 			sub = "gen." + t.Name + "/" // outputs below a directory of their own (a fault op can replace that directory by a file)
 		}
+		odd := ""
+		if r.chance(15) {
+			odd = " é%#'" // generated files with unusual (valid) names
+		}
 		for k := 0; k < ng; k++ {
-			t.Gens = append(t.Gens, pkgPath(pkg, fmt.Sprintf("%s%s.%d.out", sub, t.Name, k)))
+			t.Gens = append(t.Gens, pkgPath(pkg, fmt.Sprintf("%s%s%s.%d.out", sub, t.Name, odd, k)))
 		}
 		if r.chance(18) {
 			// sources=glob([...]) evaluated in the package directory; the root package's `**` patterns walk the whole project
@@ -740,6 +766,41 @@ func (g *gen) tplFailFix() {
 	g.add(g.build(root))
 }
 
+// tplFailThenAlone: a succeeds and its dependent b (deps=[a]) records a's stamp; an input of a other than its code
+// changes and a's body fails; a ALONE is then rebuilt successfully (same environment, new output); b is built in a
+// separate build: it must re-execute (the failure record has to keep a's run counter)
+func (g *gen) tplFailThenAlone() {
+	var cands [][2]*Tgt
+	for _, t := range g.p.live() {
+		if t.Always || len(g.p.sourceFilesOf(t)) == 0 {
+			continue
+		}
+		for _, d := range g.p.live() {
+			if contains(d.Deps, t.Label()) {
+				cands = append(cands, [2]*Tgt{t, d})
+			}
+		}
+	}
+	if len(cands) == 0 {
+		g.tplFailFix()
+		return
+	}
+	c := cands[g.r.below(len(cands))]
+	a, b := c[0], c[1]
+	g.add(g.build(b.Label()))
+	fs := g.p.sourceFilesOf(a)
+	f := fs[g.r.below(len(fs))]
+	g.edit(Edit{Kind: "content", Path: f, Text: g.p.Files[f] + "again\n"})
+	op := g.build(a.Label())
+	if g.r.chance(50) {
+		op.Target = b.Label()
+	}
+	op.Fail = []string{a.Label()}
+	g.add(op)
+	g.add(g.build(a.Label()))
+	g.add(g.build(b.Label()))
+}
+
 // tplCrashAfterRecord: the process dies right after T's record was renamed, before its dependents ran (D8, crash form)
 func (g *gen) tplCrashAfterRecord() {
 	t, d := g.chainPick()
@@ -1242,8 +1303,10 @@ func genHistory(r *rng, prop string, nops int) *History {
 				g.tplCrashInBody()
 			case x < 63:
 				g.tplCrashBystander()
-			case x < 70:
+			case x < 66:
 				g.tplFailFix()
+			case x < 72:
+				g.tplFailThenAlone()
 			case x < 86:
 				g.uniformEdit()
 			case x < 89:
